@@ -130,6 +130,16 @@ static const cfg_t cfgs[] = {
       { A(K_T1, TWAIT, SET(1)), A(K_X, SET(2)), A(K_U0, WAIT) } },
     { "fut1+cb: U1.wait | X.test,set | M.test", 0, FUTURE, 1, 1, 3,
       { A(K_U1, WAIT), A(K_X, TEST, SET(1)), A(K_M, TEST) } },
+    /* reset of a PARTIALLY set future: readiness needs num_compartments sets
+     * again, counted from the reset */
+    { "fut3+cb partial reset: X.set,reset,(flag)set,set | U1.(gate)set | "
+      "U0.(gate)wait,test", 1, FUTURE, 3, 1, 3,
+      { A(K_X, SET(1), RESET, FLAG(0), SET(2), SET(3)), A(K_U1, GATE(0), SET(4)),
+        A(K_U0, GATE(0), WAIT, TEST) } },
+    { "fut2+cb partial reset twice: M.set,reset,set,reset,(flag)set | X.(gate)set | "
+      "U1.(gate)wait", 0, FUTURE, 2, 1, 3,
+      { A(K_M, SET(1), RESET, SET(2), RESET, FLAG(0), SET(3)), A(K_X, GATE(0), SET(4)),
+        A(K_U1, GATE(0), WAIT) } },
 };
 
 /* ---------------------------------------------------------------- history */
@@ -488,43 +498,62 @@ static void check_history(void)
     free(memo);
 }
 
-/* future: number of callback runs and what each one saw */
+/* future: number of callback runs and what each one saw.  Successful sets and
+ * resets are ordered by their call stamps (the configs that reset separate
+ * epochs by gates, so this order is the real one); a reset discards the sets
+ * of an incomplete epoch. */
 static void check_callbacks(void)
 {
-    int n = C->n, nok = 0, okv[12];
-    long okc[12];
+    int n = C->n, nev = 0, nok = 0;
+    struct { long call; int val; } ev[24];
     for (int w = 0; w <= MAXA; w++)
-        for (int i = 0; i < nLOG[w]; i++)
-            if (LOG[w][i].type == H_SET && LOG[w][i].ok) {
-                /* insertion sort by call stamp */
-                int k = nok++;
-                while (k > 0 && okc[k - 1] > LOG[w][i].call) {
-                    okc[k] = okc[k - 1];
-                    okv[k] = okv[k - 1];
-                    k--;
-                }
-                okc[k] = LOG[w][i].call;
-                okv[k] = LOG[w][i].val;
+        for (int i = 0; i < nLOG[w]; i++) {
+            const hop_t *h = &LOG[w][i];
+            int is_set = h->type == H_SET && h->ok;
+            if (!is_set && h->type != H_RESET)
+                continue;
+            nok += is_set;
+            int k = nev++;
+            abtmc_check(nev <= 24, "harness", "too many events");
+            while (k > 0 && ev[k - 1].call > h->call) {
+                ev[k] = ev[k - 1];
+                k--;
             }
+            ev[k].call = h->call;
+            ev[k].val = is_set ? h->val : -1;
+        }
+    int want[4], nep = 0, cur = 0, cnt = 0;
+    for (int i = 0; i < nev; i++) {
+        if (ev[i].val < 0) { /* reset */
+            cur = 0;
+            cnt = 0;
+            continue;
+        }
+        cur |= 1 << ev[i].val;
+        if (n > 0 && ++cnt == n) {
+            if (nep < 4)
+                want[nep] = cur;
+            nep++;
+            cur = 0;
+            cnt = 0;
+        }
+    }
     int ncb = nLOG[MAXA + 1];
-    int expect = (C->cb && n > 0) ? nok / n : 0;
+    int expect = (C->cb && n > 0) ? nep : 0;
     abtmc_check(ncb == expect, "fut_callback_count",
                 "callback ran %d times, expected %d (%d compartments, %d "
-                "successful sets)", ncb, expect, n, nok);
-    /* epoch e consumed the successful sets e*n .. e*n+n-1 (epochs are
-     * separated by gates in the configs that reset) */
+                "successful sets, %d completed epochs)", ncb, expect, n, nok, nep);
     for (int e = 0; e < ncb && e < 4; e++) {
-        int seen = 0, want = 0;
+        int seen = 0;
         for (int i = 0; i < n; i++) {
             abtmc_check(cb_val[e][i] > 0, "fut_callback_args",
                         "callback %d: compartment %d holds a value nobody set",
                         e, i);
             seen |= 1 << cb_val[e][i];
-            want |= 1 << okv[e * n + i];
         }
-        abtmc_check(seen == want, "fut_callback_args",
+        abtmc_check(seen == want[e], "fut_callback_args",
                     "callback %d saw value set 0x%x, the successful sets of "
-                    "that epoch were 0x%x", e, seen, want);
+                    "that epoch were 0x%x", e, seen, want[e]);
     }
 }
 
